@@ -7,6 +7,8 @@
 (*   noanswer  access request to a pattern without access handler: none          *)
 (*   burst     delivered right before Shutdown (may be dropped with the queue):  *)
 (*             at most one response                                              *)
+(*   retained  (C08) effects of one event sent in a later life through a         *)
+(*             Resource value kept from an earlier life                          *)
 EXTENDS Naturals, Sequences, Json
 Trace == ndJsonDeserialize("trace.ndjson")
 VARIABLE l
@@ -18,5 +20,8 @@ RecordOK ==
     CASE R.kind = "answer"   -> R.n = 1 /\ R.done
       [] R.kind = "noanswer" -> R.n = 0 /\ R.done
       [] R.kind = "burst"    -> R.n <= 1 /\ (R.n = 1 => R.done)
+      \* (C08) an event sent through a Resource value obtained in an earlier life of the service: applied,
+      \* published on the connection of the CURRENT life, then handed to the listeners
+      [] R.kind = "retained" -> R.seq = <<"apply", "pub", "listen">>
       [] OTHER -> FALSE
 =============================================================================
